@@ -3,6 +3,10 @@ package main
 import (
 	"bytes"
 	"fmt"
+	"os"
+	"path/filepath"
+
+	"github.com/skycoin/skycoin/src/cipher/bip44"
 
 	"github.com/skycoin/skycoin/src/cipher/crypto"
 	"github.com/skycoin/skycoin/src/wallet"
@@ -20,7 +24,7 @@ import (
 // length the history determines.  The single-account state search cannot see a copy that mixes accounts up.
 func c17Multi(r *engine.Run, oc *engine.Counter) map[string]interface{} {
 	type mop struct {
-		kind          string
+		kind           string
 		account, chain int
 	}
 	var alphabet []mop
@@ -182,4 +186,101 @@ func accountEntries(w wallet.Wallet, account, chain int) (wallet.Entries, error)
 		opts = append(opts, wallet.OptionExternal())
 	}
 	return w.GetEntries(opts...)
+}
+
+// C17 part R — recovery through the wallet service.  Service.RecoverWallet rebuilds an encrypted wallet from its seed (and seed
+// passphrase) to reset the password; the rebuilt wallet must hold exactly the addresses the old one held (they depend on seed,
+// passphrase, chain and count only), and they must be the independent derivation.
+func c17Recover(r *engine.Run, oc *engine.Counter) map[string]interface{} {
+	dir, err := os.MkdirTemp(engine.Scratch(), "c17recover")
+	if err != nil {
+		r.Broken("scratch: %v", err)
+		return nil
+	}
+	defer os.RemoveAll(dir)
+	cfg := wallet.NewConfig()
+	cfg.WalletDir = dir
+	cfg.EnableWalletAPI = true
+	cfg.EnableSeedAPI = true
+	cfg.CryptoType = crypto.CryptoTypeSha256Xor
+	bc := bip44.CoinTypeSkycoin
+	cfg.Bip44Coin = &bc
+	evals := 0
+	caseNo := 0
+	addrs := func(w wallet.Wallet) []string {
+		var out []string
+		for _, chain := range []int{0, 1} {
+			es, err := accountEntries(w, 0, chain)
+			if err != nil {
+				return []string{"error: " + err.Error()}
+			}
+			for _, e := range es {
+				out = append(out, fmt.Sprintf("%d/%s", chain, e.Address))
+			}
+		}
+		return out
+	}
+	for mi := 0; mi < 2; mi++ {
+		for pi, pass := range bipPassphrases {
+			for _, extra := range []uint64{0, 2} {
+				for _, newPw := range []string{"", "new-password"} {
+					caseNo++
+					cfg.WalletDir = filepath.Join(dir, fmt.Sprint(caseNo)) // a service of its own per case (one wallet per seed)
+					s, err := wallet.NewService(cfg)
+					if err != nil {
+						r.Broken("wallet.NewService: %v", err)
+						return nil
+					}
+					name := fmt.Sprintf("rec-%d-%d-%d-%d.wlt", mi, pi, extra, len(newPw))
+					cs := map[string]interface{}{"mnemonic": mi, "seed_passphrase": pass, "extra_addresses": extra, "new_password": newPw != ""}
+					_, err = s.CreateWallet(name, wallet.Options{Type: wallet.WalletTypeBip44, Seed: bipMnemonic(mi), SeedPassphrase: pass, Label: "r", Encrypt: true, Password: []byte("pw"), CryptoType: crypto.CryptoTypeSha256Xor})
+					if err != nil {
+						r.Broken("CreateWallet: %v", err)
+						continue
+					}
+					if extra > 0 {
+						if _, err := s.NewAddresses(name, []byte("pw"), wallet.OptionGenerateN(extra)); err != nil {
+							r.Broken("NewAddresses: %v", err)
+							continue
+						}
+					}
+					before, err := s.GetWallet(name)
+					if err != nil {
+						r.Broken("GetWallet: %v", err)
+						continue
+					}
+					var pw []byte
+					if newPw != "" {
+						pw = []byte(newPw)
+					}
+					after, err := s.RecoverWallet(name, bipMnemonic(mi), pass, pw)
+					evals++
+					oc.Add("service-recover")
+					if err != nil {
+						r.Failf("Service.RecoverWallet:refuses-the-right-seed-and-passphrase", cs, "%v", err)
+						continue
+					}
+					got, want := addrs(after), addrs(before)
+					ref, _ := walletref.Bip44Chain(bipMnemonic(mi), pass, 8000, 0, 0, 1, false)
+					// recovery regenerates the first address of each chain (a scan restores the others): the addresses it holds must be a
+					// prefix, per chain, of what the wallet held - and the first external one is the independent derivation
+					if len(got) == 0 || len(ref) == 0 || got[0] != "0/"+ref[0].Address {
+						r.Failf("Service.RecoverWallet:recovered-wallet-derives-other-addresses", cs, "first external address after recovery %v, BIP44 derivation of (mnemonic, passphrase) gives %s; before recovery the wallet held %v", got, ref[0].Address, want)
+						continue
+					}
+					held := map[string]bool{}
+					for _, a := range want {
+						held[a] = true
+					}
+					for _, a := range got {
+						if !held[a] {
+							r.Failf("Service.RecoverWallet:recovered-wallet-derives-other-addresses", cs, "after recovery the wallet holds %s, which it did not hold before (%v)", a, want)
+							break
+						}
+					}
+				}
+			}
+		}
+	}
+	return map[string]interface{}{"what": "bip44 wallets (2 mnemonics × seed passphrase {none, set} × 0/2 extra addresses × new password {none, set}) created encrypted in a real wallet.Service, recovered with the right seed and passphrase: the recovered wallet's addresses are addresses the wallet held, the first one the independent BIP44 derivation", "recoveries": evals}
 }
